@@ -123,6 +123,7 @@ def methodParams (m : String) : Option (List K) :=
   | "AddI64" => some [.int64]
   | "Twice" => some [.int16]
   | "Note" => some [.int64]
+  | "Blow" => some [.int64]
   | _ => none
 
 def fieldVal (fields : List (String × Field)) (f : String) : Val :=
@@ -140,6 +141,7 @@ def execMethod (env : Env) (name : String) (args : List Val) : Res Val × Env :=
         | some ks =>
           match prepArgs ks args, m with
           | some [v], "Echo32" => (.ok v, env)
+          | some [_], "Blow" => (.panic, env)                 -- the method writes into a nil map
           | some [v], "Note" => (.ok .nil, { env with trace := ("note", [v]) :: env.trace })
           | some [.i _ x], "AddI64" =>
             (match fieldVal fields "I64" with
